@@ -262,11 +262,16 @@ def _fields(kind):
         "chan_rsp": st.builds(lambda c, s: {"ch": c, "sig": s}, b, b),
         "file_rsp": st.builds(lambda p, c, l: {"plat": p, "cv": c, "lv": l}, st.sampled_from(_plat_names()), b, b),
         "statu": st.builds(lambda s, a, l: {"seq": s, "start": a, "len": l}, seq, w, w),
-        "statv": st.builds(lambda i, n, dd: {"idx": i, "next": n, "data": dd}, b, b, _payload(255)),
+        # (the length byte allows 0..255 data bytes: the upper end is generated explicitly)
+        "statv": st.builds(lambda i, n, dd: {"idx": i, "next": n, "data": dd}, b, b,
+                           st.one_of(_payload(255), _payload(255), st.sampled_from([200, 247, 248, 249, 254, 255]).flatmap(lambda n_: st.binary(min_size=n_, max_size=n_)).map(bytes.hex))),
         "statp": st.builds(
             lambda ch: {"changes": ch},
             st.one_of(
                 st.lists(st.tuples(w, st.binary(min_size=2, max_size=2).map(bytes.hex)).map(list), max_size=40),
+                # the count byte allows up to 255 records in one message
+                st.sampled_from([62, 63, 64, 128, 254, 255]).flatmap(
+                    lambda n_: st.lists(st.tuples(w, st.binary(min_size=2, max_size=2).map(bytes.hex)).map(list), min_size=n_, max_size=n_)),
                 st.lists(st.tuples(w, st.sampled_from([b"</", b"<D", b"\n\n", b"''"]).map(bytes.hex)).map(list), max_size=6),
                 # the single 1-byte change the simulator emits
                 st.tuples(w, st.binary(min_size=1, max_size=1).map(bytes.hex)).map(lambda t: [list(t)]),
@@ -316,7 +321,9 @@ def strategy(tier):
     e2e_thr = st.builds(lambda ms: {"k": "e2e_thr", "msgs": ms},
                         st.lists(st.one_of(st.lists(rec, min_size=1, max_size=4), st.lists(rec, min_size=1, max_size=4), st.lists(rec, min_size=50, max_size=120)),
                                  min_size=1, max_size=4))
-    cheap = st.one_of(msg, msg, msg, msg, msg, msg, hello, hello, framing, framing, seqs, seqs)
+    simreport = st.builds(lambda cl, p_, l_, v_: {"k": "simreport", "clients": cl, "pos": p_, "len": l_, "val": v_},
+                          st.lists(_ident, min_size=1, max_size=4, unique=True), st.integers(0, 1021), st.integers(0, 1), st.integers(0, 65535))
+    cheap = st.one_of(msg, msg, msg, msg, msg, msg, hello, hello, framing, framing, seqs, seqs, simreport)
     return st.integers(0, 39).flatmap(lambda i: e2e_thr if i == 0 else (e2e if i == 1 else cheap))
 
 
@@ -694,9 +701,49 @@ def _e2e_thr(res, case):
         res.label("e2e-threaded-long-datagram")
 
 
+def _simreport(res, case):
+    """the bundled spa simulator reports a change to every client it knows: each report must be framed for THAT client (its identifier
+    as destination, the spa's as source) and go to that client's address"""
+    from .. import vworld
+
+    sim = vworld.make_simulator()
+    clients_ = []
+    for n, ident in enumerate(case["clients"]):
+        cid = ("IOS" + ident).encode("latin-1")
+        clients_.append((f"10.0.0.{20 + n}", 50000 + n, cid, sim.vp_identifier))
+    sim._clients = list(clients_)
+    sim._send_structure_change = True
+    del sim._socket._send_handlers[:]
+    pos, ln, val = int(case["pos"]) % 1022, 1 + int(case["len"]) % 2, int(case["val"]) % (256 if int(case["len"]) % 2 == 0 else 65536)
+    try:
+        sim._on_set_value(pos, ln, val)
+    finally:
+        sim._send_structure_change = False
+    out = list(sim._socket._send_handlers)
+    del sim._socket._send_handlers[:]
+    if len(out) != len(clients_):
+        res.fail("C04|simreport|count", f"{len(out)} reports queued for {len(clients_)} clients")
+        return
+    body = R.partial_update([(pos, val.to_bytes(ln, "big"))])
+    for (h, dest), cl in zip(out, clients_):
+        got = R.unframe(h.send_bytes)
+        if got is None or got[0] != sim.vp_identifier or got[1] != cl[2] or got[2] != body:
+            res.fail("C04|simreport|framing", f"report for client {cl[2]!r} at {cl[:2]} is framed {None if got is None else (got[0], got[1])} with content "
+                     f"{None if got is None else got[2]!r}; expected ({sim.vp_identifier!r}, {cl[2]!r}) {body!r}")
+            break
+        if tuple(dest[:2]) != cl[:2]:
+            res.fail("C04|simreport|destination", f"report for {cl[2]!r} goes to {dest[:2]}, the client is at {cl[:2]}")
+            break
+    res.nontrivial = len(clients_) >= 2
+    res.label("simulator-change-report")
+
+
 def run_case(case) -> Result:
     res = Result()
     k = case.get("k")
+    if k == "simreport":
+        _simreport(res, case)
+        return res
     if k == "e2e_thr":
         _e2e_thr(res, case)
         return res
